@@ -5,7 +5,7 @@ CONSTANTS
   MaxSegs = 2
   MaxRecs = 2
   MaxPath = 4
-  PathBytes = {97, 47, 58, 0}
+  PathBytes = {97, 98, 47, 58, 35, 0}
   WithRestconf = FALSE
 INVARIANTS LayoutRefinesTrie ArrPropertyHolds
 CHECK_DEADLOCK FALSE
